@@ -140,6 +140,12 @@ func checkC09(c FmtCase) Outcome {
 	for n, v := range c.Files {
 		tree["regex-assembly/"+n] = v
 	}
+	// a second tree for the --all form: the file under test plus properly formatted files that sort after it
+	allTree := cli.Tree{"regex-assembly/932100.ra": content, "regex-assembly/942100.ra": raHeader + "\nfoo\n", "regex-assembly/include/zz.ra": raHeader + "\nbar\n", "rules/": ""}
+	allRoot := sb.Path("crsall")
+	if err := allTree.Write(allRoot); err != nil {
+		panic(err)
+	}
 	root := sb.Path("crs")
 	if err := tree.Write(root); err != nil {
 		panic(err)
@@ -250,6 +256,21 @@ func checkC09(c FmtCase) Outcome {
 				out.Violation = "formatted file differs from the canonical layout"
 				return out
 			}
+		}
+	}
+	// --check --all must fail exactly when some file would be changed, whatever the order of the files
+	if !lint {
+		ra := cli.Run(cli.Opt{Dir: sb.Root, Timeout: 30 * time.Second}, "-d", allRoot, "regex", "format", "--check", "--all")
+		if (ra.Exit != 0) != (content != f1) {
+			out.Detail["check_all_exit"] = ra.Exit
+			out.Violation = fmt.Sprintf("format --check --all exits %d although %s needs formatting", ra.Exit, map[bool]string{true: "a file", false: "no file"}[content != f1])
+			return out
+		}
+		rg := cli.Run(cli.Opt{Dir: sb.Root, Timeout: 30 * time.Second}, "-d", allRoot, "-o", "github", "regex", "format", "--check", "--all")
+		if (rg.Exit != 0) != (content != f1) || (content != f1) != strings.Contains(rg.Stdout, "::error::") {
+			out.Detail["check_all_github_exit"], out.Detail["check_all_github_stdout"] = rg.Exit, rg.Stdout
+			out.Violation = "format --check --all in GitHub mode does not report exactly the unformatted state"
+			return out
 		}
 	}
 	needsWork := content != f1
